@@ -311,7 +311,7 @@ def _dedup(cfgs):
 
 
 # ------------------------------------------------------------------------------------------------
-def run_one(prop, cfg, tier, regress_path, known, outdir, mode=None, shard=None):
+def run_one(prop, cfg, tier, regress_path, known, outdir, mode=None, shard=None, thin=None):
     t0 = time.time()
     exe, log = build_binary(prop, cfg)
     if exe is None:
@@ -325,6 +325,10 @@ def run_one(prop, cfg, tier, regress_path, known, outdir, mode=None, shard=None)
         cmd[cmd.index("--mode") + 1] = "enumrc"
         cmd[cmd.index("--scale") + 1] = str(max(10, scale // 3))
         cmd += ["--enum-stride", "6"]
+    if thin and "--enum-stride" not in cmd:
+        # thorough tier, configuration outside the arm cover: the tier-1 deterministic phase thinned (every thin-th Case, phase chosen by the seed)
+        cmd[cmd.index("--scale") + 1] = str(max(10, scale // 2))
+        cmd += ["--enum-stride", str(thin)]
     if cfg.opt == "-O0":
         cmd += ["--poison-every", "1"]
     if shard:
@@ -416,15 +420,19 @@ def main_check(pid, tier):
     else:
         # thorough: every configuration runs the deterministic + rapidcheck phases; the large exhaustive sweeps run, sharded over
         # processes, on the arm-cover configurations (which between them execute every reachable #if arm)
-        jobs = [(c, "enumrc", None) for c in cfgs]
+        # the full tier-1 deterministic phase runs on the arm-cover configurations, on the compiler / standard axis points and on every
+        # configuration the property adds on its own; the remaining lattice points (arms already executed by a cover configuration) run it thinned
         cover = {C.Config(m).name for m in C.quick_macro_sets(os.path.join(INC, "avel"))}
+        full = cover | {c.name for c in select_configs(prop, "quick")}
+        thin = int(os.environ.get("VERIF_THOROUGH_THIN", str(prop.get("thorough_thin", 8))))
+        jobs = [(c, "enumrc", None, None if (c.name in full and (c.opt != "-O0" or prop.get("full_O0"))) else thin) for c in cfgs]
         nsh = int(os.environ.get("VERIF_SWEEP_SHARDS", "8"))
         if prop.get("sweep", True):
             for c in cfgs:
                 if c.name in cover:
-                    jobs += [(c, "sweep", (i, nsh)) for i in range(nsh)]
+                    jobs += [(c, "sweep", (i, nsh), None) for i in range(nsh)]
     with ThreadPoolExecutor(max_workers=JOBS) as ex:
-        results = list(ex.map(lambda j: run_one(prop, j[0], tier, rpath, known, outdir, j[1], j[2]), jobs))
+        results = list(ex.map(lambda j: run_one(prop, j[0], tier, rpath, known, outdir, j[1], j[2], j[3] if len(j) > 3 else None), jobs))
     extra = None
     if tier != "quick" and prop.get("fuzz"):
         fcfgs = prop["fuzz"](INC) if callable(prop["fuzz"]) else [C.Config(m) for m in ([], ["SSE2"], ["AVX2"], list(C.EVERYTHING))]
